@@ -18,6 +18,10 @@
   inputs `acc0`, `out0` (the theorems show that the results do not depend on them).
 
   This file follows the code after the fixes C11-1 … C11-5 (`/verif/fixes/C11-*.diff`).
+  Not modelled here: `ckks.Average` (fix C11-6) and the result metadata (scale, `LogDimensions`, `IsBatched`:
+  probed by `harness/c11_meta.go`), sparse packing, the key levels of the Galois keys (probed by
+  `harness/c11_keylevels.go`; the `P`-factor of the hoisted-lazy path is proved on C04's model in
+  `Props/C11.lean` §6), `GaloisElementsForExpand` / `…ForPack`.
 
   Core Lean only.
 -/
